@@ -43,6 +43,8 @@ structure ReqX where
   stream : Bool            -- response.stream
   script : List Step       -- `gen` kind only: what the handler does before returning the entity
   emptyTag : Text          -- md5 tag of the empty body (parameter)
+  ifRange : Option Text := none   -- the If-Range request header: no code reads it (CherryPy does not implement
+                                  -- If-Range; a Range is honoured whatever it says), see `respondX_ignores_ifRange`
 
 /-- handler-visible response state: the ETag header and whether `response.body` holds the entity -/
 structure HState where
@@ -117,6 +119,6 @@ def respondX (r : ReqX) : Resp :=
 /-- the script of the first model: `validate_since()` before the body exists, or nothing -/
 def legacyScript (r : Req) : List Step := if r.callSince then [.since] else []
 
-def lift (r : Req) (emptyTag : Text) : ReqX := ⟨r, false, legacyScript r, emptyTag⟩
+def lift (r : Req) (emptyTag : Text) : ReqX := ⟨r, false, legacyScript r, emptyTag, none⟩
 
 end CpModel.CondFlow
